@@ -64,6 +64,7 @@ def jobs(tier, seed):
         out.append({'fn': 'doc_rows', 'cfg': {'rows': ch}})
     out.append({'fn': 'doc_structure', 'cfg': {}})
     out.append({'fn': 'doc_temperature', 'cfg': {}})
+    out.append({'fn': 'after_user_declarations', 'cfg': {}})
     out.append({'fn': 'unit_scale', 'cfg': {'units': ['mi'], 'canary': True}, 'canary': True})
     LAST_CONFIG_INFO.clear()
     LAST_CONFIG_INFO.update({'units': {'enumerated': len(units), 'total': len(units) + len(uncovered)},
@@ -242,6 +243,77 @@ def doc_structure(E, cfg):
                 continue
             E.check(syms.count(u.symbol) == 1, 'doc-lists-unit-once', key='doc-lists:' + u.symbol)
     E.check(len(syms) == len(set(syms)), 'doc-no-duplicate-rows')
+
+
+def after_user_declarations(E, cfg):
+    """the catalogue still agrees with the reference table after user declarations in the same process: attempts to
+    reuse catalogue symbols in other types (whatever their outcome), further units, a further temperature converter"""
+    from decimalfp import Decimal
+    from quantity import Quantity, Unit, TableConverter
+    import quantity.predefined as pre
+    from quantity.money import Money
+    step = E.choice('step', ['clash-unit-other-type', 'clash-type-ref-symbol', 'clash-currency', 'user-unit',
+                             'extra-temperature-converter', 'none'])
+    watched = {'a': pre.ARE, 'B': pre.BYTE, 'l': pre.LITRE, 'm': pre.METRE, 'kg': pre.KILOGRAM, 'h': pre.HOUR,
+               'K': pre.KELVIN, 'mi': pre.MILE}
+
+    def attempt(fn):
+        try:
+            fn()
+        except Exception:
+            pass
+    if step == 'clash-unit-other-type':
+        attempt(lambda: pre.Duration.new_unit('a', 'Year', Decimal(31536000) * pre.SECOND))
+        attempt(lambda: pre.Length.new_unit('l', 'League', Decimal(4828) * pre.METRE))
+        attempt(lambda: pre.Mass.new_unit('h', 'Hectogram', Decimal(100) * pre.GRAM))
+    elif step == 'clash-type-ref-symbol':
+        attempt(lambda: C.mk_cls('Beauty', ref_unit_symbol='B'))
+        attempt(lambda: C.mk_cls('Mileage', ref_unit_symbol='mi'))
+    elif step == 'clash-currency':
+        attempt(lambda: Money.new_unit('B', 'Baht'))
+        attempt(lambda: Money.new_unit('K', 'Kina', minor_unit=2))
+    elif step == 'user-unit':
+        pre.Length.new_unit('smoot', 'Smoot', Decimal('1.7018') * pre.METRE)
+        pre.Area.new_unit('dunam', 'Dunam', Decimal(1000) * pre.SQUARE_METRE)
+    elif step == 'extra-temperature-converter':
+        rankine = pre.Temperature.new_unit('°R', 'Rankine')
+        pre.Temperature.register_converter(TableConverter([(pre.KELVIN, rankine, Fraction(9, 5), 0)]))
+    a = E.rational('a', 'dec')
+    for sym, const in sorted(watched.items()):
+        try:
+            u = Unit(sym)
+        except Exception as e:
+            E.fail('catalogue-symbol-still-known', key='after-user:symbol-unknown:' + sym, info=[step, type(e).__name__])
+            continue
+        E.check(u is const, 'catalogue-symbol-still-its-unit', key='after-user:symbol-taken-over', info=[step, sym])
+        if sym == 'K':
+            continue
+        s_, sec = _ref_scale(sym)
+        q = Quantity(a, const)
+        r = q.convert(const.qty_cls.ref_unit)
+        E.check(r.amount * 1 == q.amount * s_, 'catalogue-scale-after-user-declarations', key='after-user:scale', info=[step, sym])
+        try:
+            qs = Quantity('3 ' + sym)
+        except Exception as e:
+            E.fail('catalogue-symbol-parses', key='after-user:parse:' + type(e).__name__, info=[step, sym])
+        else:
+            E.check(qs.unit is const and type(qs) is const.qty_cls, 'catalogue-symbol-parses-to-its-type',
+                    key='after-user:parse-type', info=[step, sym])
+    # the documented temperature equivalents (0 °C = 32 °F = 273.15 K)
+    for (x, u, y, v) in ((0, pre.CELSIUS, 32, pre.FAHRENHEIT), (0, pre.CELSIUS, Decimal('273.15'), pre.KELVIN),
+                         (Decimal('273.15'), pre.KELVIN, 32, pre.FAHRENHEIT), (0, pre.KELVIN, Decimal('-459.67'), pre.FAHRENHEIT)):
+        for (p_, pu, q_, qu) in ((x, u, y, v), (y, v, x, u)):
+            try:
+                got = Quantity(p_, pu).convert(qu).amount
+            except Exception as e:
+                E.fail('temperature-equivalents-after-user-declarations', key='after-user:temperature:' + type(e).__name__,
+                       info=[step, pu.symbol, qu.symbol])
+                continue
+            E.check(got == q_, 'temperature-equivalents-after-user-declarations', key='after-user:temperature',
+                    info=[step, pu.symbol, qu.symbol, str(got)])
+    t = Quantity(a, pre.CELSIUS)
+    E.check(t.convert(pre.KELVIN).amount == a + Fraction('273.15'), 'celsius-kelvin-after-user-declarations',
+            key='after-user:temperature-formula', info=[step])
 
 
 def doc_temperature(E, cfg):
